@@ -207,7 +207,11 @@ def run(ctx, drv):
         if isinstance(r, str):
             ctx.fail("sort-raises", {"repeat": True}, r, "ranks", "core.nondominated_sort")
             continue
-        ranks = [s.rank for s in sols]
+        ranks = [getattr(s, "rank", None) for s in sols]
+        if None in ranks:
+            ctx.fail("solution-without-rank", {"repeat": True, "maximise": list(dirs), "population": [[list(map(float, s.objectives)), float(s.constraint_violation)] for s in sols]},
+                     ranks, "every solution ranked", "core.nondominated_sort")
+            continue
         ask(f"nsort {int(constrained)} {dirs_w(dirs)} {len(sols)} " + " ".join(sol_q(ids(s), s) for s in sols),
             lambda g, ranks=ranks: None if g.split()[1:] == [str(r) for r in ranks]
             else ctx.disagree("nondominated_sort ranks with a repeated object", {"n": len(ranks)}, ranks, g.split()[1:]))
